@@ -67,6 +67,7 @@ func (s *Stream) expandDataChannel() {
 	// from PerformanceConfig.BufferConfig — the expansion knobs are not dead.
 	buf := s.config.PerformanceConfig.BufferConfig
 	exp := s.config.PerformanceConfig.OverflowConfig.ExpansionConfig
+	verifYield("expand_before_snapshot")
 	s.dataChanMux.RLock()
 	oldCap := cap(s.dataChan)
 	currentLen := len(s.dataChan)
